@@ -592,7 +592,7 @@ def framecases(draw):
     seed = draw(st.integers(0, 2 ** 31 - 1))
     dtype = draw(st.sampled_from(["uint16", "float32", "uint32"]))
     fill = draw(st.sampled_from([0.05, 0.3, 1.0]))
-    how = draw(st.sampled_from(["mask", "cut", "plain"]))
+    how = draw(st.sampled_from(["mask", "cut", "plain", "plain32"]))
     extra = draw(st.booleans())
     return dict(ns=ns, nf=nf, seed=seed, dtype=dtype, fill=fill, how=how, extra=extra)
 
@@ -615,6 +615,23 @@ def check_frame(case, rec=None):
     elif how == "cut":
         d = np.where(mask, data, 0).astype(case["dtype"])
         ok, fr = guard(sparseframe.from_data_cut, d, 0, hdr)
+    elif how == "plain32":
+        # a frame of a detector (or a stitched image) too large for 16 bit indices: uint32 indices, pixels on both
+        # sides of 65536 along one axis
+        i, j = np.nonzero(mask)
+        big = 70000 + case["seed"] % 30000
+        spread = np.sort(np.unique(np.concatenate([[0, 65535, 65536, big - 1], rng.randint(0, big, 64)])))
+        while len(spread) < max(shape):
+            spread = np.sort(np.unique(np.concatenate([spread, rng.randint(0, big, 64)])))
+        if case["seed"] % 2:
+            i = spread[np.linspace(0, len(spread) - 1, shape[0]).astype(int)][i] if shape[0] > 1 else i + 65536
+            bshape = (big, shape[1])
+        else:
+            j = spread[np.linspace(0, len(spread) - 1, shape[1]).astype(int)][j] if shape[1] > 1 else j + 65536
+            bshape = (shape[0], big)
+        ok, fr = guard(sparseframe.sparse_frame, i.astype(np.uint32), j.astype(np.uint32), bshape, itype=np.uint32,
+                       pixels={"intensity": data[mask]})
+        shape = bshape
     else:
         i, j = np.nonzero(mask)
         ok, fr = guard(sparseframe.sparse_frame, i.astype(np.uint16), j.astype(np.uint16), shape,
@@ -638,7 +655,8 @@ def check_frame(case, rec=None):
             fails.append(exc_failure("from_hdf_group", r))
         else:
             if tuple(int(x) for x in r.shape) != shape or r.nnz != fr.nnz or \
-                    not np.array_equal(r.row, fr.row) or not np.array_equal(r.col, fr.col):
+                    not np.array_equal(r.row, fr.row) or not np.array_equal(r.col, fr.col) or \
+                    r.row.dtype != fr.row.dtype or r.col.dtype != fr.col.dtype:
                 fails.append(fail("frame_index", "sparse frame indices/shape differ after HDF round trip", route="frame"))
             elif set(r.pixels) != set(fr.pixels):
                 fails.append(fail("frame_names", "pixel arrays %s read, %s written" % (sorted(r.pixels),
@@ -652,7 +670,8 @@ def check_frame(case, rec=None):
                         if mk not in r.meta.get(k, {}) or r.meta[k][mk] != mv:
                             fails.append(fail("frame_meta", "meta %s[%s] wrote %r read %r" %
                                               (k, mk, mv, r.meta.get(k, {}).get(mk)), route="frame"))
-                if not fails and not np.array_equal(r.to_dense("intensity"), np.where(mask, data, 0)):
+                if not fails and how != "plain32" and \
+                        not np.array_equal(r.to_dense("intensity"), np.where(mask, data, 0)):
                     fails.append(fail("frame_dense", "dense image differs after HDF round trip", route="frame"))
     rm(fn)
     if rec is not None:
